@@ -149,6 +149,10 @@ where
                 op, module, module
             ));
         }
+        if c.prelude.contains("fn defaults_json") {
+            // the case supplies a function that evaluates the `default_*` constructors of its operations
+            src.push_str("            (\"defaults\", _) => format!(\"ok {}\", defaults_json()),\n");
+        }
         for (module, en) in &c.enums {
             src.push_str(&format!("            (\"enum\", {:?}) => super::de_dbg::<{}::{}>(input),\n", format!("{}::{}", module, en), module, en));
         }
